@@ -26,7 +26,9 @@ private theorem step_summary (L : Lib) (v : Validator) (m : Mode) (σ : State) (
     ((r.1.phase cid = .http true ∨ r.1.phase cid = .sConnect) →
         (σ.phase cid = .http true ∨ σ.phase cid = .sConnect) ∨ presentsAccepted L v m e = true) ∧
     (r.2.forwards = true →
-        cid ∈ σ.authd ∨ presentsAccepted L v m e = true ∨ σ.phase cid = .sConnect) := by
+        cid ∈ σ.authd ∨ presentsAccepted L v m e = true ∨ σ.phase cid = .sConnect) ∧
+    ((r.1.phase cid = .http true ∨ r.1.phase cid = .sConnect) →
+        (σ.phase cid = .http true ∨ σ.phase cid = .sConnect) ∨ cid ∈ r.1.authd) := by
   intro r
   have hr : r = step L (some v) m σ cid e := rfl
   cases hp : σ.phase cid with
@@ -66,11 +68,12 @@ private theorem step_summary (L : Lib) (v : Validator) (m : Mode) (σ : State) (
           · by_cases hc : credsOk L v m hs = true
             · have : r = (σ, .fwd (hdrDel hs (authName m))) := by
                 rw [hr]; unfold step; simp [hp, requestheadersHook, ha, authenticateHttp, hc]
-              simp [this, presentsAccepted, hc]
+              simp [this, presentsAccepted, hc, hp]
+              intro h; cases t <;> simp_all
             · have : r = (σ, .deny (authCode m)) := by
                 rw [hr]; unfold step; simp [hp, requestheadersHook, ha, authenticateHttp, hc]
               simp [this, Out.forwards, hp]
-              intro h; cases t <;> simp_all
+              cases t <;> simp_all
     | sGreet ms =>
       have : r = (σ.setPhase cid .closed, .unmodelled) := by rw [hr]; unfold step; simp [hp]
       simp [this, State.setPhase, Out.forwards]; intro c hne; simp [hne]
@@ -147,7 +150,7 @@ private theorem inv_init (modes : Nat → Mode) (P : Nat → Prop) : Inv P (Stat
 private theorem step_inv (L : Lib) (v : Validator) (m : Mode) (σ : State) (cid : Nat) (e : Ev)
     (P : Nat → Prop) (h : Inv P σ) :
     Inv (fun c => P c ∨ (c = cid ∧ presentsAccepted L v m e = true)) (step L (some v) m σ cid e).1 := by
-  obtain ⟨ha, hphase, htun, _⟩ := step_summary L v m σ cid e
+  obtain ⟨ha, hphase, htun, _, _⟩ := step_summary L v m σ cid e
   constructor
   · intro c hc
     rcases ha with ha | ⟨ha, hacc⟩
@@ -168,7 +171,7 @@ private theorem step_inv (L : Lib) (v : Validator) (m : Mode) (σ : State) (cid 
 private theorem step_forwards (L : Lib) (v : Validator) (m : Mode) (σ : State) (cid : Nat) (e : Ev)
     (P : Nat → Prop) (h : Inv P σ) (hf : (step L (some v) m σ cid e).2.forwards = true) :
     P cid ∨ presentsAccepted L v m e = true := by
-  obtain ⟨_, _, _, hfw⟩ := step_summary L v m σ cid e
+  obtain ⟨_, _, _, hfw, _⟩ := step_summary L v m σ cid e
   rcases hfw hf with h' | h' | h'
   · exact Or.inl (h.1 cid h')
   · exact Or.inr h'
@@ -891,5 +894,202 @@ theorem deny_code_is_response_status (m : Mode) : authCode m = (authRequiredResp
   cases m <;> rfl
 
 end B64
+
+/-! ### the decision for every header list and mode; the "authenticated once" memo over whole histories -/
+
+/-- `s.split(":", 1)` unpacked into two parts is exactly "cut at the first colon" -/
+theorem splitColon1_spec (s u p : Text) :
+    splitColon1 s = some (u, p) ↔ (s = u ++ 58 :: p ∧ ∀ c ∈ u, c ≠ 58) := by
+  constructor
+  · intro h
+    induction s generalizing u with
+    | nil => simp [splitColon1] at h
+    | cons c cs ih =>
+      by_cases hc : c = 58
+      · subst hc
+        simp [splitColon1] at h
+        obtain ⟨rfl, rfl⟩ := h
+        simp
+      · simp only [splitColon1, hc, if_false, Option.map_eq_some_iff] at h
+        obtain ⟨⟨u', p'⟩, hrec, heq⟩ := h
+        simp only [Prod.mk.injEq] at heq
+        obtain ⟨rfl, rfl⟩ := heq
+        obtain ⟨rfl, hnc⟩ := ih u' hrec
+        refine ⟨by simp, ?_⟩
+        intro x hx
+        simp only [List.mem_cons] at hx
+        rcases hx with rfl | hx
+        · exact hc
+        · exact hnc x hx
+  · rintro ⟨rfl, hu⟩
+    exact splitColon1_first u p hu
+
+/-- **the decision, for every header list and every mode** (regular, upstream, reverse, transparent, socks5 relay):
+    a request of a connection that is not memoised is forwarded — without the credential fields — exactly when the
+    joined value of the path's credential header parses and the validator accepts the pair; otherwise 407 / 401. -/
+theorem decision_for_every_header_list (L : Lib) (v : Validator) (m : Mode) (σ : State) (cid : Nat)
+    (hs : List Hdr) (t : Bool) (hp : σ.phase cid = .http t) (hna : cid ∉ σ.authd) :
+    step L (some v) m σ cid (.req false false hs) =
+      (σ, if credsOk L v m hs then .fwd (hdrDel hs (authName m))
+          else .deny (if m.isHttpProxy then 407 else 401)) := by
+  by_cases hc : credsOk L v m hs = true
+  · unfold step; simp [hp, requestheadersHook, hna, authenticateHttp, hc]
+  · unfold step; simp [hp, requestheadersHook, hna, authenticateHttp, hc, authCode]
+
+/-- CONNECT at an explicit proxy: tunnel + memo exactly when the credentials are accepted, else 407 and no change -/
+theorem connect_decision (L : Lib) (v : Validator) (m : Mode) (σ : State) (cid : Nat) (hs : List Hdr) (big : Bool)
+    (hp : σ.phase cid = .http false) (hm : m.isHttpProxy = true) :
+    step L (some v) m σ cid (.req true big hs) =
+      if credsOk L v m hs
+      then (({ σ with authd := cid :: σ.authd } : State).setPhase cid (.http true), .tunnel)
+      else (σ, .deny 407) := by
+  by_cases hc : credsOk L v m hs = true
+  · unfold step; simp [hp, hm, httpConnectHook, authenticateHttp, hc]
+  · unfold step; simp [hp, hm, httpConnectHook, authenticateHttp, hc, authCode]
+
+/-- what `credsOk` means, spelled out: the joined header value is `<scheme> <token>` (split at Unicode whitespace),
+    the scheme lower-cases to "basic", the token is encodable, decodes, contains a colon, and the validator accepts
+    (user = text before the FIRST colon, password = everything after it) -/
+theorem credsOk_iff (L : Lib) (v : Validator) (m : Mode) (hs : List Hdr) :
+    credsOk L v m hs = true ↔
+      ∃ scheme tok txt u p, splitWs L.isSpace (hdrGet hs (authName m)) = [scheme, tok] ∧
+        scheme.map L.lower = basicWord ∧ tok.any isSurrogate = false ∧ L.decodeCred tok = some txt ∧
+        txt = u ++ 58 :: p ∧ (∀ c ∈ u, c ≠ 58) ∧ v.accepts L u p = true := by
+  unfold credsOk parseBasic parseBasicWith
+  constructor
+  · intro h
+    cases hsw : splitWs L.isSpace (hdrGet hs (authName m)) with
+    | nil => simp [hsw] at h
+    | cons scheme l1 =>
+      cases l1 with
+      | nil => simp [hsw] at h
+      | cons tok l2 =>
+        cases l2 with
+        | cons x l3 => simp [hsw] at h
+        | nil =>
+          simp only [hsw] at h
+          by_cases h1 : scheme.map L.lower = basicWord
+          · by_cases h2 : tok.any isSurrogate = true
+            · simp [h1, h2] at h
+            · cases hd : L.decodeCred tok with
+              | none => simp [h1, h2, hd] at h
+              | some txt =>
+                cases hcol : splitColon1 txt with
+                | none => simp [h1, h2, hd, hcol] at h
+                | some up =>
+                  obtain ⟨u, p⟩ := up
+                  simp [h1, h2, hd, hcol] at h
+                  obtain ⟨rfl, hnc⟩ := (splitColon1_spec txt u p).1 hcol
+                  exact ⟨scheme, tok, _, u, p, rfl, h1, by simpa using h2, hd, rfl, hnc, h⟩
+          · simp [h1] at h
+  · rintro ⟨scheme, tok, txt, u, p, hsplit, h1, h2, hd, rfl, hnc, hacc⟩
+    rw [hsplit]
+    simp [h1, h2, hd, splitColon1_first u p hnc, hacc]
+
+/-- a memoised connection ("authenticated once"): every later plain request passes verbatim, whatever it carries -/
+theorem authenticated_connection_passes (L : Lib) (v : Validator) (m : Mode) (σ : State) (cid : Nat)
+    (hs : List Hdr) (t : Bool) (hp : σ.phase cid = .http t) (ha : cid ∈ σ.authd) :
+    step L (some v) m σ cid (.req false false hs) = (σ, .fwd hs) := by
+  unfold step; simp [hp, requestheadersHook, ha]
+
+/-- without `proxyauth` nothing is checked and nothing is removed -/
+theorem no_validator_forwards_everything (L : Lib) (m : Mode) (σ : State) (cid : Nat) (hs : List Hdr) (t : Bool)
+    (hp : σ.phase cid = .http t) :
+    step L none m σ cid (.req false false hs) = (σ, .fwd hs) := by
+  unfold step; simp [hp, requestheadersHook]
+
+/-- the memo only grows, over every history -/
+theorem authenticated_memo_persists (L : Lib) (v : Validator) (modes : Nat → Mode) (cid : Nat) :
+    ∀ (es : List (Nat × Ev)) (σ : State), cid ∈ σ.authd → cid ∈ (finalState L (some v) modes σ es).authd := by
+  intro es
+  induction es with
+  | nil => intro σ h; simpa [finalState] using h
+  | cons x rest ih =>
+    intro σ h
+    obtain ⟨c0, e0⟩ := x
+    simp only [finalState]
+    apply ih
+    obtain ⟨ha, _⟩ := step_summary L v (modes c0) σ c0 e0
+    rcases ha with ha | ⟨ha, _⟩ <;> rw [ha] <;> simp [h]
+
+/-- **no cross-connection effect**: a history without events of `cid` changes neither `cid`'s phase nor whether it
+    is memoised — authentication of one client never authenticates another -/
+theorem other_connections_unaffected (L : Lib) (v : Validator) (modes : Nat → Mode) (cid : Nat) :
+    ∀ (es : List (Nat × Ev)) (σ : State), (∀ x ∈ es, x.1 ≠ cid) →
+      (finalState L (some v) modes σ es).phase cid = σ.phase cid ∧
+      (cid ∈ (finalState L (some v) modes σ es).authd ↔ cid ∈ σ.authd) := by
+  intro es
+  induction es with
+  | nil => intro σ _; simp [finalState]
+  | cons x rest ih =>
+    intro σ h
+    obtain ⟨c0, e0⟩ := x
+    have hne : c0 ≠ cid := h (c0, e0) (by simp)
+    have hrest : ∀ x ∈ rest, x.1 ≠ cid := fun x hx => h x (by simp [hx])
+    simp only [finalState]
+    obtain ⟨ha, hphase, _⟩ := step_summary L v (modes c0) σ c0 e0
+    obtain ⟨h1, h2⟩ := ih (step L (some v) (modes c0) σ c0 e0).1 hrest
+    refine ⟨by rw [h1, hphase cid (Ne.symm hne)], ?_⟩
+    rw [h2]
+    rcases ha with ha | ⟨ha, _⟩ <;> rw [ha]
+    simp only [List.mem_cons]
+    constructor
+    · rintro (h' | h')
+      · exact absurd h'.symm hne
+      · exact h'
+    · exact Or.inr
+
+/-- tunnel / relay phases are reached only by memoised connections (reachable-state invariant) -/
+private theorem tunnel_implies_memo (L : Lib) (v : Validator) (modes : Nat → Mode) :
+    ∀ (es : List (Nat × Ev)) (σ : State),
+      (∀ c, (σ.phase c = .http true ∨ σ.phase c = .sConnect) → c ∈ σ.authd) →
+      ∀ c, ((finalState L (some v) modes σ es).phase c = .http true ∨
+            (finalState L (some v) modes σ es).phase c = .sConnect) →
+        c ∈ (finalState L (some v) modes σ es).authd := by
+  intro es
+  induction es with
+  | nil => intro σ h; simpa [finalState] using h
+  | cons x rest ih =>
+    intro σ h
+    obtain ⟨c0, e0⟩ := x
+    simp only [finalState]
+    apply ih
+    intro c hc
+    obtain ⟨ha, hphase, _, _, hmemo⟩ := step_summary L v (modes c0) σ c0 e0
+    have hmono : ∀ y, y ∈ σ.authd → y ∈ (step L (some v) (modes c0) σ c0 e0).1.authd := by
+      intro y hy
+      rcases ha with ha | ⟨ha, _⟩ <;> rw [ha] <;> simp [hy]
+    by_cases hcc : c = c0
+    · subst hcc
+      rcases hmemo hc with h' | h'
+      · exact hmono _ (h c h')
+      · exact h'
+    · rw [hphase c hcc] at hc
+      exact hmono _ (h c hc)
+
+/-- **"authenticated once" over whole histories**: in every reachable state, a request arriving inside a CONNECT
+    tunnel or SOCKS5 relay is forwarded verbatim and leaves the state unchanged — the connection was authenticated
+    when the tunnel was requested, and is not asked again. -/
+theorem tunnel_requests_forwarded_verbatim (L : Lib) (v : Validator) (modes : Nat → Mode)
+    (pre : List (Nat × Ev)) (cid : Nat) (hs : List Hdr)
+    (hp : (finalState L (some v) modes (State.init modes) pre).phase cid = .http true) :
+    step L (some v) (modes cid) (finalState L (some v) modes (State.init modes) pre) cid (.req false false hs) =
+      (finalState L (some v) modes (State.init modes) pre, .fwd hs) := by
+  have hinit : ∀ c, ((State.init modes).phase c = .http true ∨ (State.init modes).phase c = .sConnect) →
+      c ∈ (State.init modes).authd := by
+    intro c hc
+    simp only [State.init, initPhase] at hc
+    split at hc <;> simp at hc
+  have ha := tunnel_implies_memo L v modes pre (State.init modes) hinit cid (Or.inl hp)
+  exact authenticated_connection_passes L v (modes cid) _ cid hs true hp ha
+
+-- non-vacuity: the tunnel phase is reachable (hist0 above), and the decision takes both branches
+example : (finalState L0 (some single0) modes0 (State.init modes0) hist0).phase 0 = .http true := by decide +kernel
+example : credsOk L0 single0 .regular [⟨pa, cred0⟩] = true ∧ credsOk L0 single0 .reverse [⟨pa, cred0⟩] = false := by
+  decide +kernel
+-- the transcribed base64: lenient decoding as CPython does it ("QQ=x=" ↦ b"A\x0c", "Q" is an error), mkauth("u","pa:ss")
+example : B64.a2b [81, 81, 61, 120, 61] = some [65, 12] ∧ B64.a2b [81] = none ∧ B64.a2b [33, 81, 33, 81, 61, 33, 61] = some [65] := by
+  decide +kernel
+example : B64.mkauth [117] [112, 97, 58, 115, 115] = B64.strText "basic dTpwYTpzcw==\n" := by decide +kernel
 
 end MitmVerif.Props.C20
